@@ -310,6 +310,7 @@ func c13(c *Ctx) {
 	r.Infof("CTR.lenprefix: %d length-prefix/data pair(s) recognised and reached", len(c.lenPairsSeen))
 	r.Infof("CTR.wclosed: %d path(s) that close a packet with the W field checked", c.wClosedSeen)
 	r.Infof("CTR.carrylayer: %d path(s) around the payloader's loop checked", c.carryNilSeen)
+	r.Infof("CTR.yz: %d path(s) that set the Y flag checked", c.yzSeen)
 }
 
 // blocksWithCallees: the blocks of fn, of its closures and of the functions of the same package it
